@@ -497,3 +497,52 @@ func mustJSON(v any) string {
 }
 
 var _ = quotedRe
+
+// FuzzDecoders: coverage-guided (thorough tier).  No decoder may panic; what a
+// decoder accepts must re-encode to a text that decodes to the same value, and
+// must lie inside the primitive's grammar as the harness recognises it.
+func FuzzDecoders(f *testing.F) {
+	for _, s := range []string{`"abc"`, `W/"x"`, "HTTP/1.1 200 OK", "HTTP/1.1 +200 OK", "Mon, 02 Jan 2006 15:04:05 GMT", "0", "infinity", "T", "/a%20b", "http://h/x", "20060102T150405Z", `'a'`, "\"a\\\"b\""} {
+		f.Add(s)
+	}
+	f.Fuzz(func(t *testing.T, s string) {
+		var e internal.ETag
+		if err := e.UnmarshalText([]byte(s)); err == nil {
+			if len(s) < 2 || s[0] != '"' || s[len(s)-1] != '"' {
+				t.Fatalf("etag|accepted-outside-grammar: %q decodes to %q", s, string(e))
+			}
+			var e2 internal.ETag
+			if err := e2.UnmarshalText([]byte(e.String())); err != nil || e2 != e {
+				t.Fatalf("etag|reencode: %q -> %q -> %q, %v", s, e.String(), string(e2), err)
+			}
+		}
+		var st internal.Status
+		if err := st.UnmarshalText([]byte(s)); err == nil && s != "" {
+			if !statusRe.MatchString(s) {
+				t.Fatalf("status|accepted-outside-grammar: %q decodes to %d %q", s, st.Code, st.Text)
+			}
+		}
+		var tm internal.Time
+		if err := tm.UnmarshalText([]byte(s)); err == nil {
+			b, _ := tm.MarshalText()
+			var tm2 internal.Time
+			if err := tm2.UnmarshalText(b); err != nil || !time.Time(tm2).Equal(time.Time(tm)) {
+				t.Fatalf("httpdate|reencode: %q -> %q -> %v, %v", s, b, time.Time(tm2), err)
+			}
+		}
+		if d, err := internal.ParseDepth(s); err == nil && d.String() != s {
+			t.Fatalf("depth|accepted-outside-grammar: %q parsed as %v", s, d)
+		}
+		if v, err := internal.ParseOverwrite(s); err == nil && internal.FormatOverwrite(v) != s {
+			t.Fatalf("overwrite|accepted-outside-grammar: %q parsed as %v", s, v)
+		}
+		var h internal.Href
+		if err := h.UnmarshalText([]byte(s)); err == nil && strings.HasPrefix(h.Path, "/") && h.Host == "" && h.Scheme == "" && h.Opaque == "" {
+			// the property's domain: absolute paths
+			var h2 internal.Href
+			if err := h2.UnmarshalText([]byte(h.String())); err != nil || h2.Path != h.Path {
+				t.Fatalf("href|reencode: %q -> %q -> path %q vs %q, %v", s, h.String(), h2.Path, h.Path, err)
+			}
+		}
+	})
+}
